@@ -7,13 +7,17 @@ THEOREMS = ['Tbox.C20.C20_weekly_earliest', 'Tbox.C20.C20_weekly_empty_mask', 'T
             'Tbox.C20.C20_workday_earliest', 'Tbox.C20.C20_workday_none', 'Tbox.C20.C20_workday_beyond_scan_counterexample',
             'Tbox.C20.C20_tz', 'Tbox.C20.C20_delay_not_short', 'Tbox.C20.C20_delay_u32_counterexample',
             'Tbox.C20.C20_targets_strictly_increase', 'Tbox.C20.C20_enable_after_disable_earliest',
-            'Tbox.C20.C20_stale_target_counterexample', 'Tbox.C20.C20_oneshot_once', 'Tbox.C20.C20_disabled_never_fires',
+            'Tbox.C20.C20_stale_target_counterexample', 'Tbox.C20.C20_oneshot_once', 'Tbox.C20.C20_oneshot_expiry_idle', 'Tbox.C20.C20_disabled_never_fires',
             'Tbox.C20.C20_fired_was_enabled']
 SOURCES = ['modules/alarm/alarm.cpp', 'modules/alarm/weekly_alarm.cpp', 'modules/alarm/oneshot_alarm.cpp',
            'modules/alarm/workday_alarm.cpp', 'modules/alarm/workday_calendar.cpp'] + vlib.EVENT_SOURCES + vlib.BASE_SOURCES
 FLAVOUR = 'asan'
 LIBS = ['-ldl']
 BATCH = 200
+BATCH_TIMEOUT = 60
+CASE_TIMEOUT = 10
+SHRINK_TESTS = 60
+MAX_REPORT = 3
 HARNESS_ENV = {'TZ': 'UTC'}
 TRUSTED = ['model lean/TboxModel/C20/Model.lean hand-written from modules/alarm/{alarm,weekly_alarm,oneshot_alarm,workday_alarm,workday_calendar}.cpp; '
            'tied by differential runs: probe subclasses for calculateNextLocalTimeSec, real alarms on the real epoll loop for arming/firing',
